@@ -86,6 +86,14 @@ class OneShot(tuple):
     consumed = False
 
 
+class Maybe:
+    """An element that is a member of a sequence only when `cond` holds (result of a
+    comprehension filter that cannot be decided statically)."""
+
+    def __init__(self, cond: Any, value: Any):
+        self.cond, self.value = cond, value
+
+
 class TV:
     """Abstract tensor: term + (optional) shape + dtype typestate + alias set."""
 
